@@ -88,15 +88,20 @@ def _f55(spec, sig, msg):
 
 
 def _f58(spec, sig, msg):
-    """QR swap of a graph-built operator with physical factors below 1e-9 in absolute value (structural 1.0 next to them)"""
+    """swaps with QR involved (QR swap of a graph-built operator, or a graph swap of a QR-built one) when the physical factors are
+    far from 1 in absolute value (some below 1e-8 or above 1e9): structural unit entries sit next to them in one coefficient matrix"""
     import re
-    if spec.get("swap_algo") != "qr" or not spec.get("swaps"):
+    if not spec.get("swaps"):
         return False
     mags = [abs(complex(*t["f"])) for t in spec["terms"]]
     mags = [x for x in mags if x > 0]
-    if not mags or min(mags) >= 1e-9:
+    if not mags or (min(mags) >= 1e-8 and max(mags) <= 1e9):
         return False
-    return bool(re.match(r"^(swap|swap_refused_and_wrong)\.(Hopcroft-Karp|Hungarian)(\.exc\.AssertionError@symbolic_mpo\.py:swap_site)?$", sig))
+    m = re.match(r"^(swap|swap_refused_and_wrong)\.(Hopcroft-Karp|Hungarian|qr)(\.exc\.AssertionError@symbolic_mpo\.py:swap_site)?$", sig)
+    if not m:
+        return False
+    built_qr = m.group(2) == "qr"
+    return (spec.get("swap_algo") == "qr") != built_qr  # exactly one of construction / swap uses QR
 
 
 class C01(Prop):
